@@ -240,20 +240,71 @@ class Discharger:
 
     def _param_nonempty(self, f: Func, param: str) -> Optional[str]:
         """`param` of a private helper is non-empty: every call site passes a local it has tested non-empty."""
-        if param not in f.params or not f.name.startswith("_"):
+        if param not in f.params or not (f.name.startswith("_") or "<locals>" in f.qualname):
             return None
         if any(isinstance(x, ast.Name) and x.id == param and isinstance(x.ctx, (ast.Store, ast.Del)) for x in own_nodes(f.node)):
             return None
         sites = self._call_sites(f)
         if not sites:
             return None
+        if "<locals>" in f.qualname:
+            # a local function that escapes as a value has callers this list does not show
+            for g, _ in sites:
+                for x in ast.walk(g.node):
+                    if isinstance(x, ast.Name) and x.id == f.name and isinstance(x.ctx, ast.Load):
+                        par = getattr(x, "_parent", None)
+                        if not (isinstance(par, ast.Call) and par.func is x):
+                            return None
         for g, call in sites:
             a = self._arg_for(f, call, param)
             if not isinstance(a, ast.Name):
                 return None
-            if not (any(self._truthy_of(t, tr, a.id) for t, tr in self.guards(g, call)) or self._nonempty_guard(g, call, a.id)):
+            if not (any(self._truthy_of(t, tr, a.id) for t, tr in self.guards(g, call)) or self._nonempty_guard(g, call, a.id) or self._grown_nonempty(g, a.id)):
                 return None
         return f"every caller of {f.qualname} ({', '.join(sorted({g.qualname for g, _ in sites}))}) passes a `{param}` it has tested non-empty"
+
+    def _grown_nonempty(self, f: Func, name: str) -> Optional[str]:
+        """A local list that is only ever bound to a non-empty list literal and afterwards only grows."""
+        if name in f.params:
+            return None
+        defs = self._defs(f, name)
+        stores = [x for x in own_nodes(f.node) if isinstance(x, ast.Name) and x.id == name and isinstance(x.ctx, (ast.Store, ast.Del))]
+        if not defs or len(defs) != len(stores):
+            return None
+        if not all(isinstance(d, ast.List) and d.elts and not any(isinstance(e, ast.Starred) for e in d.elts) for d in defs):
+            return None
+        for x in own_nodes(f.node):
+            if isinstance(x, ast.Name) and x.id == name and isinstance(x.ctx, ast.Load):
+                par = getattr(x, "_parent", None)
+                if isinstance(par, ast.Attribute):
+                    if par.attr not in ("append", "extend", "insert", "index", "count", "copy"):
+                        return None  # pop/remove/clear/sort key tricks: not only growing
+                elif isinstance(par, ast.Subscript) and par.value is x and isinstance(par.ctx, (ast.Store, ast.Del)):
+                    return None
+                elif isinstance(par, ast.Call) and x in par.args and not (isinstance(par.func, ast.Name) and (par.func.id in ("len", "str", "repr", "sorted", "list", "tuple", "set", "min", "max", "sum") or self._local_pure(f, par.func.id, par, x))):
+                    return None  # handed to code that may shrink it
+        return f"`{name}` is only ever bound to a non-empty list literal and then only grows (append/extend)"
+
+    def _local_pure(self, f: Func, fname: str, call: ast.Call, arg: ast.AST) -> bool:
+        """A local function that does not mutate the parameter the list is passed as."""
+        for st in ast.walk(f.node):
+            if isinstance(st, ast.FunctionDef) and st is not f.node and st.name == fname:
+                i = call.args.index(arg)
+                ps = [a.arg for a in st.args.posonlyargs + st.args.args]
+                if i >= len(ps):
+                    return False
+                p_ = ps[i]
+                for y in ast.walk(st):
+                    if isinstance(y, ast.Name) and y.id == p_:
+                        par = getattr(y, "_parent", None)
+                        if isinstance(par, ast.Attribute) and par.attr not in ("index", "count", "copy"):
+                            return False
+                        if isinstance(par, ast.Subscript) and isinstance(par.ctx, (ast.Store, ast.Del)):
+                            return False
+                        if isinstance(par, ast.Call) and y in par.args and not (isinstance(par.func, ast.Name) and par.func.id in ("len", "str", "repr", "sorted", "list", "tuple")):
+                            return False
+                return True
+        return False
 
     # ---- subscripts
     def subscript(self, f: Func, n: ast.Subscript) -> Optional[str]:  # noqa: C901
@@ -309,6 +360,10 @@ class Discharger:
                         return f"`{bs}` is tested non-empty before"
                 if isinstance(base, ast.Name):
                     why = self._param_nonempty(f, base.id)
+                    if why:
+                        return why
+                if isinstance(base, ast.Name):
+                    why = self._grown_nonempty(f, base.id)
                     if why:
                         return why
                 # split(sep) always yields at least one element
